@@ -19,7 +19,9 @@ SCHEMES = ["http", "https", "ws", "wss", "ftp", "file", "x", ""]
 HOSTS = ["h", "example.com", "127.0.0.1", "[::1]", "[fe80::1%25e0]"]
 USERINFO = ["", "u@", "u:p@"]
 PORT_TEXTS = [None, "", "0", "1", "21", "80", "443", "8080", "65535", "65536", "99999", "080", "0080", "00", "x", "8o", "-1",
-              "+1", " 1", "1 ", "1_0", "٣", "１", "4 43", "80:80", "0x50", "1e2", "999999999999999999999"]
+              "+1", " 1", "1 ", "1_0", "٣", "１", "4 43", "80:80", "0x50", "1e2", "999999999999999999999",
+              # validity is decided by the VALUE: zero-padded spellings of any length
+              "008080", "000080", "000000", "0000065535", "0000065536", "00000000000000000443"]
 PORT_ARGS = [None, 0, 1, 21, 80, 443, 8080, 65535, 65536, -1, 10 ** 9, True, False]
 
 
